@@ -53,7 +53,9 @@ def run(ctx):
     rng = ctx.rng
     n = ctx.budget(500, 30000)
     for enz in asm.pick_enzymes(rng, n):
-        g = asm.gen_wellformed(rng, enz)
+        # one case in three closes on an overhang that is the reverse complement of an inner junction, or its own
+        closing = rng.choice([None, None, None, None, "rc", "pal"])
+        g = asm.gen_wellformed(rng, enz, closing=closing)
         if g is None:
             continue
         case, info = g
